@@ -24,7 +24,8 @@ from . import c18  # noqa: E402
 B = fakeusb.BACKEND
 
 
-def drive(script, timeout_s, default_s, inject=None, short=False, seed=0):
+def drive(script, timeout_s, default_s, inject=None, short=False, seed=0, conn_s='same'):
+    conn_s = timeout_s if conn_s == 'same' else conn_s       # the timeout given to connect() (it is not the default of later calls)
     from adb_shell.transport.usb_transport import UsbTransport
     from adb_shell import exceptions as ex
     rng = random.Random(seed)
@@ -53,7 +54,7 @@ def drive(script, timeout_s, default_s, inject=None, short=False, seed=0):
         op = a['op']
         try:
             if op == 'connect':
-                t.connect(timeout_s)
+                t.connect(conn_s)
                 closed = False
                 B.inbuf = bytearray()
                 written = delivered = 0
@@ -158,6 +159,11 @@ def body(ctx):
         tmo, dflt = grid[pi % len(grid)]
         traces.append(drive(sc2, tmo, dflt, seed=pi))
         meta.append(dict(kind='tour-script', timeout_s=tmo, default_s=dflt, script=sc2))
+        if pi % 2 == 1:
+            # connect() with its own timeout; the calls that follow give none / another one: the object's default resp. their own applies
+            cs = (0.75, 3, None)[pi % 3]
+            traces.append(drive(sc2, tmo, dflt, seed=pi, conn_s=cs))
+            meta.append(dict(kind='tour-script, connect() with its own timeout', connect_timeout_s=cs, timeout_s=tmo, default_s=dflt, script=sc2))
         if pi % 3 == 0:
             traces.append(drive(sc2, tmo, dflt, short=True, seed=pi))
             meta.append(dict(kind='tour-script short transfers', timeout_s=tmo, default_s=dflt, script=sc2))
